@@ -1367,6 +1367,9 @@ class virtualQubit(pb.Referenceable):
 
                     # Delete from virtual qubits
                     self.virtNode.root.virtQubits.remove(self)
+
+                    # The qubit is gone, a retained reference must not act on whatever inherits its position
+                    self.active = 0
         finally:
             yield call_method(self.simQubit, "unlock")
             assert locked_node == self.simNode, "Something went wrong"
